@@ -776,7 +776,8 @@ fn build_onsite_prod(doc: &roxmltree::Document) -> Vec<VypSystem> {
                     }));
                 }
                 _ => {
-                    panic!("XXX: Tipo desconocido: {}", kind);
+                    log::warn!("Tipo de producción in situ desconocido: {}", kind);
+                    continue;
                 }
             }
         }
@@ -803,7 +804,8 @@ fn build_onsite_prod(doc: &roxmltree::Document) -> Vec<VypSystem> {
                     }));
                 }
                 _ => {
-                    panic!("XXX: Tipo desconocido: {}", kind);
+                    log::warn!("Tipo de producción in situ desconocido: {}", kind);
+                    continue;
                 }
             }
         }
